@@ -1,7 +1,8 @@
 (** C11 — Clearance predictions are never early, terminate, and are exact for flat shares.
     PARTIAL.  What is proved here is the logic around the numerics: the version moves exactly when
     the stored fit moves (both predictors), the polynomial search never answers before the start day
-    unless it fell back to the last-share estimate, it terminates in exact arithmetic when predicted
+    unless it fell back to the last-share estimate, the linear predictor never does under three stated
+    facts about the number type (proved for exact arithmetic), it terminates in exact arithmetic when predicted
     shares are positive, and uninitialised predictors answer "no prediction".  What is NOT proved:
     the float64 accuracy claims (never early and within one day of t+ceil(d/s) for flat shares for the
     linear regression with its cancellation at epoch-day magnitudes; the quality of gonum's QR fit).
@@ -33,6 +34,20 @@ Theorem C11_polynomial_prediction_not_before_start : forall (N : NumOps) (p : po
   sd <= z \/ z = sd + ktruncZ N (kdiv N d (last_y (pf_sm p))).
 Proof. exact @pf_predict_not_early. Qed.
 Print Assumptions C11_polynomial_prediction_not_before_start.
+
+(** the linear predictor: never before the start day, for every number instance satisfying three facts
+    about its conversions and order (exact arithmetic does: second theorem; float64 at day
+    magnitudes does by monotonicity of rounding, which is checked by the correspondence, not proved) *)
+Theorem C11_linear_prediction_not_before_start : forall (N : NumOps), @ConvLaws N ->
+  forall (b : bestfit N) balance start z,
+  kleb N (k0 N) (kdiv N balance (last_y (bf_sm b))) = true ->
+  bf_predict b balance start = Some z -> start <= z.
+Proof. exact @bf_predict_not_early. Qed.
+Print Assumptions C11_linear_prediction_not_before_start.
+
+Theorem C11_exact_arithmetic_satisfies_the_conversion_facts : @ConvLaws NumZ.
+Proof. exact ConvLaws_NumZ. Qed.
+Print Assumptions C11_exact_arithmetic_satisfies_the_conversion_facts.
 
 Theorem C11_polynomial_search_terminates_exact : forall (p : polyfit NumZ) fuel (d sd cd r : Z),
   (forall x, sd <= x -> exists y, pf_predict_y p x = Some y /\ 1 <= y) ->
